@@ -45,6 +45,14 @@ def polygon_problems(r, e, want_normal=None):
             if not s > 1e-9 * scale:
                 out.append(('cycle-not-counter-clockwise-about-normal', lib.describe(r)))
                 break
+        # a left turn at every vertex is necessary but not sufficient (star orders {5/2}, {7/3} ... also turn left everywhere):
+        # consecutive stored vertices must be consecutive in the exact boundary cycle of the model
+        _, cyc = X.poly_cycle(e[1])
+        cf = [tuple(float(c) for c in v) for v in cyc]
+        idx = [min(range(m), key=lambda j: X.n2(_sub(p, cf[j]))) for p in pts]
+        steps = {(idx[(i + 1) % m] - idx[i]) % m for i in range(m)}
+        if m > 3 and not (steps == {1} or steps == {m - 1}):
+            out.append(('cycle-is-not-the-boundary-of-the-polygon', lib.describe(r)))
         for p in pts:
             if abs(X.dot(_sub(p, lib._c(r.plane.p)), n)) > 1e-8 * ln * max(1.0, math.sqrt(scale)):
                 out.append(('vertex-off-plane', lib.describe(r.plane)))
